@@ -21,7 +21,7 @@ import shutil
 
 from common import GUARD, REPO, WORK, log, run, sha, repo_tree_hash, hash_files
 
-PROPS = ("C04", "C05", "C06", "C10", "C11", "C12", "C13", "C14", "C19")
+PROPS = ("C04", "C05", "C06", "C10", "C11", "C12", "C13", "C14", "C17", "C19")
 
 LIB_PRELUDE = r"""#![allow(warnings)]
 pub use ::entrait::{entrait, entrait_export, Impl};
@@ -673,6 +673,56 @@ def cases_c11(rng, n):
     return out
 
 
+# ------------------------------------------------------------------------------------------------ C17: the `debug` option
+# `debug` changes no token: its only effect is that the macro prints the expansion while compiling. Bare `debug` = `debug = true`,
+# `debug = false` = omitted, on every target that accepts it. Uniquely named items, one cargo check, stdout searched for the names.
+
+def debug_probe(root, env):
+    crate = os.path.join(root, "crate_debug")
+    if os.path.exists(crate):
+        shutil.rmtree(crate)
+    os.makedirs(os.path.join(crate, "src"))
+    with open(os.path.join(crate, "Cargo.toml"), "w") as fh:
+        fh.write('[package]\nname = "dprobe"\nversion = "0.0.0"\nedition = "2021"\n\n[dependencies]\nentrait = { path = "%s" }\n\n[workspace]\n' % REPO)
+    shutil.copy(os.path.join(REPO, "Cargo.lock"), os.path.join(crate, "Cargo.lock"))
+    settings = [("none", None, False), ("bare", "debug", True), ("true", "debug = true", True), ("false", "debug = false", False),
+                ("false_then_bare", "debug = false, debug", True), ("bare_then_false", "debug, debug = false", False)]
+    lines = ["#![allow(warnings)]", "use ::entrait::entrait;", "pub trait A {}", "pub struct Ty;"]
+    expect = {}
+    for tgt in ("fn", "mod", "trait", "impl"):
+        for tag, opt, printed in settings:
+            name = "Dbg%s%sQ" % (tgt.capitalize(), "".join(w.capitalize() for w in tag.split("_")))
+            expect[name] = (tgt, opt, printed)
+            o = (", " + opt) if opt else ""
+            if tgt == "fn":
+                lines.append("#[entrait(%s%s)] fn f_%s(deps: &impl A) {}" % (name, o, name.lower()))
+            elif tgt == "mod":
+                lines.append("#[entrait(%s%s)] mod m_%s { pub fn g(deps: &impl super::A) {} }" % (name, o, name.lower()))
+            elif tgt == "trait":
+                lines.append("#[entrait(%s)] trait %s { fn m(&self); }" % (opt or "", name))
+            else:
+                lines.append("#[entrait(%sImplSrc, delegate_by = Delegate%s)] trait %sSrc { fn m(&self); }" % (name, name, name))
+                lines.append("pub struct Ty%s; #[entrait(%s)] impl %sImplSrc for Ty%s { fn m<D>(deps: &D) {} }" % (name, opt or "", name, name))
+                expect[name] = (tgt, opt, printed)
+    with open(os.path.join(crate, "src", "lib.rs"), "w") as fh:
+        fh.write("\n".join(lines) + "\n")
+    import subprocess
+    e = dict(os.environ)
+    e.update({"CARGO_NET_OFFLINE": "true"})
+    e.update(env)
+    p = subprocess.run(["cargo", "check", "--offline", "-j", "16"], cwd=crate, env=e, stdout=subprocess.PIPE, stderr=subprocess.PIPE, text=True, timeout=3000)
+    log("[sprobe] debug probe: rc=%d" % p.returncode)
+    res = []
+    for name, (tgt, opt, printed) in expect.items():
+        key = name + "ImplSrc" if tgt == "impl" else name
+        # the impl-block expansion names the implemented trait `<Name>ImplSrc<EntraitT>`; the entraited source trait of it prints nothing (no debug on it)
+        seen = (key + " <") in p.stdout or (key + "<") in p.stdout or ("trait " + key) in p.stdout or (" " + key + " ") in p.stdout
+        res.append({"name": name, "target": tgt, "option": opt, "must_print": printed, "printed": seen,
+                    "ok": p.returncode == 0 and seen == printed})
+    shutil.rmtree(crate, ignore_errors=True)
+    return res, p.returncode, p.stderr[-1500:] if p.returncode != 0 else ""
+
+
 # ------------------------------------------------------------------------------------------------ assembly
 
 def build_cases(seed, tier):
@@ -904,7 +954,19 @@ def sem_probe(seed, tier):
         else:
             results[c.cid] = {"prop": c.prop, "ok": True,
                               "detail": ("rejected: %s" % (rejected_neg[c.cid][0],)) if expect_reject else "compiles"}
-    res = {"key": key, "cases": [c.descr() for c in cases], "results": {str(k): v for k, v in results.items()},
+    # C17: the `debug` option (its only effect is a print while compiling)
+    dres, drc, derr = debug_probe(root, env)
+    descrs = [c.descr() for c in cases]
+    for d in dres:
+        cid = len(descrs)
+        descrs.append({"cid": cid, "prop": "C17", "family": "debug/%s/%s" % (d["target"], d["option"] or "none"), "cfg": "nontest", "note": "",
+                       "lib": "#[entrait(%s)] on a %s named %s" % (d["option"] or "", d["target"], d["name"]), "lib_neg": None, "bin": "", "bin_neg": None,
+                       "expect": "accept"})
+        results[cid] = {"prop": "C17", "ok": d["ok"],
+                        "detail": ("the expansion %s printed while compiling, but `%s` on a %s must %sprint it%s" % (
+                            "was" if d["printed"] else "was not", d["option"] or "no debug option", d["target"], "" if d["must_print"] else "not ",
+                            "" if drc == 0 else "; the probe crate did not compile: " + derr[-300:])) if not d["ok"] else "printed as expected"}
+    res = {"key": key, "cases": descrs, "results": {str(k): v for k, v in results.items()},
            "stuck": sorted(stuck), "unattributed": unattributed[:20], "run_rc": run_rc,
            "counts": {"accept": sum(1 for c in cases if c.descr()["expect"] == "accept"),
                       "reject": sum(1 for c in cases if c.descr()["expect"] == "reject")}}
